@@ -201,7 +201,8 @@ func (w *World) oracles(n *Node, op string) {
 			if s.Genesis != "" && v.Transaction.IssuerAddress == s.Genesis {
 				w.c.Violate("C10", "genesis-wallet-spends", fmt.Sprintf("vertex %x is issued by the genesis wallet", h[:4]), info)
 			}
-			if v.Transaction.IsEmpty() {
+			// the oracle's own definition of "neither data nor spice" (not the implementation's IsEmpty)
+			if len(v.Transaction.Data) == 0 && v.Transaction.Spice.Currency == 0 && v.Transaction.Spice.SupplementaryCurrency == 0 {
 				w.c.Violate("C10", "empty-transaction-sealed", fmt.Sprintf("vertex %x seals an empty transaction", h[:4]), info)
 			}
 		}
